@@ -80,3 +80,114 @@ func VerifC16Gate() {
 	_, r := vRead(name, "version")
 	vAssert(r.(int) == cur || !done, "C16/contract-reports-the-repository-version")
 }
+
+func alphaDo(contract, method string, args ...any) {
+	vSign(vAlphabetAcct(), true)
+	ok, _ := vInvoke(contract, method, args...)
+	vAssume(ok)
+}
+
+// C16 preservation (current storage layout): a state is built through the public API, the contract is
+// upgraded from a release reporting a symbolic supported version, and the read API must answer as before.
+// param 0: 0 balance, 1 netmap, 2 container, 3 nns.
+func VerifC16Preserve() {
+	which := vParam(0)
+	v := vInt("deployedVersion")
+	cur := vRepoVersion()
+	vSetIR(3)
+	user, other := vAcct("user"), vAcct("other")
+	switch which {
+	case 0: // balance: balances, a live lock, supply
+		vDeploy("netmap", false, nil, nil, nil, []any{})
+		vDeployVersion("balance", v, false, nil, nil)
+		x, y := vInt("x"), vInt("y")
+		vAssume(x >= 1 && x <= 1000000 && y >= 0 && y <= x)
+		alphaDo("balance", "mint", user, x, []byte{})
+		alphaDo("balance", "mint", other, 7, []byte{})
+		alphaDo("balance", "lock", []byte{1}, user, vAcct("lockacc"), y, 50)
+		vAssume(v >= 15004 && v < cur)
+		vSign(vCommitteeAcct(), true)
+		done, _ := vUpdateFrom("balance", v)
+		vRequire(done, "balance-upgraded")
+		_, b1 := vRead("balance", "balanceOf", user)
+		_, b2 := vRead("balance", "balanceOf", other)
+		_, b3 := vRead("balance", "balanceOf", vAcct("lockacc"))
+		_, sup := vRead("balance", "totalSupply")
+		vAssert(b1.(int) == x-y && b2.(int) == 7 && b3.(int) == y && sup.(int) == x+7, "C16/upgrade-preserves-balances-and-supply")
+		// the lock is still a lock: it is released at its epoch
+		alphaDo("balance", "newEpoch", 50)
+		_, b1 = vRead("balance", "balanceOf", user)
+		vAssert(b1.(int) == x, "C16/upgrade-preserves-lock-accounts")
+	case 1: // netmap: epoch, maps, candidates, configuration, subscribers
+		vDeployVersion("netmap", v, false, nil, nil, nil, []any{[]byte("key0"), []byte("val0")})
+		vDeploy("balance", false, nil, nil)
+		alphaDo("netmap", "addPeerIR", vBlob("node", 1))
+		vSign(vAcct("node"), true)
+		alphaDo("netmap", "addNode", []any{[]any{"addr"}, nil, vKey("node"), 1})
+		alphaDo("netmap", "newEpoch", 1)
+		alphaDo("netmap", "setConfig", []byte{1}, []byte("key1"), vBytes("val1", 3))
+		alphaDo("netmap", "newEpoch", 2)
+		vAssume(v >= 19000 && v < cur)
+		vSign(vCommitteeAcct(), true)
+		done, _ := vUpdateFrom("netmap", v)
+		vRequire(done, "netmap-upgraded")
+		_, ep := vRead("netmap", "epoch")
+		_, nm := vRead("netmap", "netmap")
+		_, s1 := vRead("netmap", "snapshot", 1)
+		_, ln := vRead("netmap", "listNodes", 2)
+		_, cands := vRead("netmap", "netmapCandidates")
+		_, c0 := vRead("netmap", "config", []byte("key0"))
+		_, c1 := vRead("netmap", "config", []byte("key1"))
+		_, lc := vRead("netmap", "listConfig")
+		vAssert(ep.(int) == 2 && len(nm.([]any)) == 1 && len(s1.([]any)) == 1 && len(ln.([]any)) == 1 && len(cands.([]any)) == 1, "C16/upgrade-preserves-epoch-maps-and-candidates")
+		vAssert(c0 != nil && vEq(c0.([]byte), []byte("val0")) && c1 != nil && vEq(c1.([]byte), vBytes("val1", 3)) && len(lc.([]any)) == 2, "C16/upgrade-preserves-the-configuration")
+		alphaDo("netmap", "newEpoch", 3) // subscribers and the ring still work
+		_, ep = vRead("netmap", "epoch")
+		vAssert(ep.(int) == 3, "C16/upgraded-contract-keeps-ticking")
+	case 2: // container: blob, owner index, eACL, count
+		deployFSChainFor(v)
+		b1 := blobOf(user, "b1")
+		vSign(vAlphabetAcct(), true)
+		ok, _ := vInvoke("container", "put", b1, vBytes("sig", 64), vKey("user"), []byte{})
+		vAssume(ok)
+		id1 := vSha256(b1)
+		eacl := append(append([]byte{1, 0, 2, 3, 4, 5}, id1...), 7, 7)
+		alphaDo("container", "setEACL", eacl, vBytes("sig", 64), vKey("user"), []byte{})
+		vAssume(v >= 15004 && v < cur)
+		vSign(vCommitteeAcct(), true)
+		done, _ := vUpdateFrom("container", v)
+		vRequire(done, "container-upgraded")
+		okG, _ := vRead("container", "get", id1)
+		okO, o := vRead("container", "owner", id1)
+		okE, _ := vRead("container", "eACL", id1)
+		_, cnt := vRead("container", "count")
+		_, l := vRead("container", "list", b1[6:31])
+		vAssert(okG && okO && okE && vEq(o.([]byte), b1[6:31]) && cnt.(int) == 1 && len(l.([]any)) == 1, "C16/upgrade-preserves-containers-and-the-owner-index")
+	case 3: // nns: names, owners, records
+		vDeployVersion("nns", v, []any{[]any{"com", "ops@nspcc.io"}})
+		vSign(user, true)
+		ok, r := vInvoke("nns", "register", "a.com", user, "e@nspcc.io", 1, 2, 100000, 3)
+		vAssume(ok && r.(bool))
+		vSign(user, true)
+		ok, _ = vInvoke("nns", "addRecord", "a.com", 16, "text")
+		vAssume(ok)
+		vAssume(v >= 18000 && v < cur)
+		vSign(vCommitteeAcct(), true)
+		done, _ := vUpdateFrom("nns", v)
+		vRequire(done, "nns-upgraded")
+		_, ow := vRead("nns", "ownerOf", "a.com")
+		_, recs := vRead("nns", "getRecords", "a.com", 16)
+		_, ts := vRead("nns", "totalSupply")
+		_, bal := vRead("nns", "balanceOf", user)
+		_, av := vRead("nns", "isAvailable", "b.com")
+		vAssert(vEq(ow.([]byte), user) && len(recs.([]any)) == 1 && ts.(int) == 1 && bal.(int) == 1 && av.(bool), "C16/upgrade-preserves-names-owners-and-records")
+	}
+}
+
+func deployFSChainFor(v int) {
+	vDeploy("nns", []any{[]any{"neofs", "ops@nspcc.io"}})
+	vDeploy("netmap", false, nil, nil, nil, []any{[]byte("ContainerFee"), 0, []byte("ContainerAliasFee"), 0})
+	vDeploy("balance", false, nil, nil)
+	vDeploy("neofsid", false)
+	vDeployVersion("container", v, false, vContractHash("netmap"), vContractHash("balance"), vContractHash("neofsid"), vContractHash("nns"), "container")
+}
